@@ -94,7 +94,7 @@ def select(structs, k, rng):
         chosen.append(best)
         todo -= feats[best]
     # fill up; structures of the known defect class (see notes) are capped: they only re-confirm it
-    known = lambda s: bool(s["ident"]) and any(x[0] > 0 for x in s["fin"]) and not s["swapaligned"]
+    known = known_class
     nknown = sum(known(structs[i]) for i in chosen)
     for i in order:
         if len(chosen) >= k:
@@ -188,13 +188,16 @@ def evaluate(ctx, s, words, nev, want_detail=None):
     return out
 
 
+def known_class(s):
+    """identical pair declared, a spinning final, reference not exchange symmetric (spec: ~SwapAligned)"""
+    return bool(s["ident"]) and any(x[0] > 0 for x in s["fin"]) and not s["swapaligned"]
+
+
 def judge(ctx, s, res, words):
     key = res["key"]
     if res.get("problem") == "chains":
         ctx.violation("%s:chain-set" % key, {"structure": s, "detail": res})
         return
-    spinning = any(x[0] > 0 for x in s["fin"])
-    known_class = bool(s["ident"]) and spinning and not s["swapaligned"]
     base_detail = {"structure": s, "described": S.describe(s), "scale": res["scale"]}
     if not res["finite"]:
         ctx.violation("%s:non-finite" % key, base_detail)
@@ -209,7 +212,7 @@ def judge(ctx, s, res, words):
     if res["fails"]:
         f = res["fails"][0]
         detail = dict(base_detail, first_failure=f, failing_words=len(res["fails"]), words=res["n_words"], tolerance="|d'-d| <= %g*(max(d',d)+median d)+%g" % (REL, ABS))
-        if known_class:
+        if known_class(s):
             ctx.violation(KNOWN_CLASS_KEY, detail)
         else:
             ctx.violation("%s:%s" % (key, ".".join(f["applied"])), detail)
@@ -222,7 +225,7 @@ def run(ctx, only=None, tier=None, fallback=None):
     maxword = 2 if quick else 3
     thin = 4 if quick else 1
     nsel = 40
-    nev = 64 if quick else 32
+    nev = 64 if quick else 24
     offset = ctx.seed % 100000
     out = None
     for attempt in range(4):
@@ -265,15 +268,26 @@ def run(ctx, only=None, tier=None, fallback=None):
     else:
         chosen = list(range(len(structs)))
     ctx.cov["exhaustive"] = not quick and only is None
-    n_deg = n_known = 0
+    n_deg = n_known = n_short = 0
     max_nerr = max_merr = 0.0
     n_words = n_eval = 0
     featset = set()
     for cnt, i in enumerate(chosen):
         s = structs[i]
         words = S.words_upto(s["enabled"], maxword)
+        kc = known_class(s)
         try:
-            res = evaluate(ctx, s, words, nev)
+            res = None
+            if kc and maxword > 1:
+                # known defect class: single generators suffice to re-confirm it; the full word set is
+                # replayed only if the structure passes them (i.e. once the defect is repaired)
+                w1 = S.words_upto(s["enabled"], 1)
+                r1 = evaluate(ctx, s, w1, nev)
+                if r1.get("problem") or r1["fails"]:
+                    res, words = r1, w1
+                    n_short += 1
+            if res is None:
+                res = evaluate(ctx, s, words, nev)
         except Exception as e:  # the real code raised on a structure the specification calls valid
             ctx.violation("%s:raise" % S.skey(s), {"structure": s, "error": repr(e)[:500]})
             continue
@@ -284,8 +298,6 @@ def run(ctx, only=None, tier=None, fallback=None):
         n_words += len(words)
         n_eval += len(words) * nev
         n_deg += res["degenerate"]
-        spinning = any(x[0] > 0 for x in s["fin"])
-        kc = bool(s["ident"]) and spinning and not s["swapaligned"]
         n_known += kc
         if not res["degenerate"] and not kc and not res["fails"]:
             max_nerr = max(max_nerr, res["max_nerr"])
@@ -299,14 +311,15 @@ def run(ctx, only=None, tier=None, fallback=None):
             ctx.sample({"structure": S.describe(s), "word": [list(g) for g in words[wi]], "events": nev, "normalised_error_of_word": float(res["werr"][wi]), "median_density": res["scale"]})
         if cnt % 20 == 0:
             ctx.log("%d/%d structures, max normalised error so far %.2e" % (cnt + 1, len(chosen), max_nerr))
-    ctx.part("structures", slice_size=out["catalogue"], valid=out["nvalid"], evaluated=len(chosen), degenerate_zero_density=n_deg, known_defect_class=n_known)
+    ctx.part("structures", slice_size=out["catalogue"], valid=out["nvalid"], evaluated=len(chosen), degenerate_zero_density=n_deg, known_defect_class=n_known, known_class_replayed_with_single_generators_only=n_short)
     ctx.part("scenarios", tlc_states=r.distinct, words_replayed=n_words, events_per_word=nev, density_evaluations=n_eval)
     ctx.cov["parts"]["margin"] = {"max_normalised_density_error_outside_known_class": max_nerr, "max_normalised_mass_error": max_merr, "tolerance_rel": REL, "tolerance_abs": ABS}
     ctx.cov["parts"]["features_covered"] = sorted("%s=%s" % f for f in featset)
     ctx.cov["traces_validated_against_impl"] = n_words
     ctx.cov["rule"] = (
         "TLC enumerates a slice (Thin=%d, Offset=%d) of the structure product of spec/Symmetry.tla and every word of length <= %d over the "
-        "enabled generators as states; %s valid structures of the slice are replayed (%s), every word on %d phase-space events with generic "
+        "enabled generators as states; %s valid structures of the slice are replayed (%s; structures of the known defect class that already fail "
+        "on single generators are not replayed on longer words), every word on %d phase-space events with generic "
         "rotations/boosts drawn per occurrence; density compared with the untransformed one: |d'-d| <= %g*(max+median)+%g, finite, >= 0; "
         "invariant masses to 1e-8. distinct non-trivial = distinct (structure, non-empty word) pairs on structures whose density is not identically zero"
         % (thin, out["offset"], maxword, len(chosen), "all" if not quick else "greedy feature cover + seeded fill", nev, REL, ABS)
